@@ -661,8 +661,9 @@ func (s *Store[K, V]) sinkWrite(item WriteBufItem[K, V]) {
 	}
 
 	// ignore removed entries, except code NEW
-	// which will reset removed flag
-	if entry.flag.IsRemoved() && item.code != NEW {
+	// which will reset removed flag, and REMOVE: when the API Delete won the
+	// map removal, eviction/expiry could not notify, so REMOVE must
+	if entry.flag.IsRemoved() && item.code != NEW && item.code != REMOVE {
 		return
 	}
 
